@@ -7,7 +7,8 @@
 // the next choice comes from the replayed prefix (else alternative 0).
 //
 // Alternatives at a point are in canonical order: those of the goroutine that just
-// yielded first, then the other goroutines in ascending id; a select contributes one
+// yielded first, then the other goroutines in ascending id (goroutines woken from a
+// cond wait last); a select contributes one
 // alternative per ready case in source order, so Go's random case choice is an
 // explored choice.
 package sched
@@ -58,6 +59,7 @@ type G struct {
 	hasDef  bool
 	chosen  int  // granted case index (-1 default)
 	passive bool // granted as passive rendezvous party: must park after its real op
+	woken   bool // its pending lock request comes from a cond wake-up (Signal/Broadcast)
 	done    bool
 	daemon  bool
 	name    string
@@ -218,7 +220,17 @@ func (s *S) pick(from *G) (alt, bool) {
 		alts = s.altsOf(from, alts)
 	}
 	for _, g := range s.gs {
-		if g == from || g.done {
+		if g == from || g.done || g.woken {
+			continue
+		}
+		alts = s.altsOf(g, alts)
+	}
+	// Goroutines re-acquiring their mutex after a cond wake-up come last in the canonical
+	// order: in the default schedule a woken waiter loses the race for the lock (as it
+	// usually does in the runtime), which puts missing re-checks of the wait condition
+	// within a small deviation bound.
+	for _, g := range s.gs {
+		if g == from || g.done || !g.woken {
 			continue
 		}
 		alts = s.altsOf(g, alts)
@@ -256,6 +268,7 @@ func (s *S) grant(a alt) {
 		println("grant g", g.id, g.name, kindName[g.kind], "case", a.caseIdx, "partner", pid, "point", len(s.x.Points))
 	}
 	g.chosen = a.caseIdx
+	g.woken = false
 	switch g.kind {
 	case opLock:
 		if g.mu != nil {
@@ -691,6 +704,7 @@ func (c *Cond) Wait() {
 	// woken: Signal/Broadcast turned the wait into a lock request, granted by the scheduler
 }
 func (c *Cond) wakeOne(g *G) {
+	g.woken = true
 	switch l := c.L.(type) {
 	case *Mutex:
 		g.kind, g.mu = opLock, l
